@@ -157,7 +157,7 @@ func f32D(f float32) *D {
 
 func c01(c *Ctx) {
 	maxNodes := c.N(4, 5)
-	c.Rule = fmt.Sprintf("exhaustive: every document of <=%d nodes over objects (key alphabet %v, sibling keys distinct under folding), arrays of <=2 elements, null, true, 1.5, \"s\"; every key path walking existing keys in three casings plus an absent key per level, depth<=4; each document as map/slice values and as Go structs; rows: arrays of 1..4 objects whose elements spell the same key in different letter case, lack it or hold null / scalars / objects, each element in a Go carrier of its own (map[string]any, struct, named-key map, interface-key map, typed map), read with `$.rows.key` and `$.rows.key.sub`; random: documents of depth<=4 from the generator with key-only paths of depth 1..6 in random casing. Non-trivial = the path has >=1 key that exists at its level; distinct by (query, data).", maxNodes, keysC01)
+	c.Rule = fmt.Sprintf("exhaustive: every document of <=%d nodes over objects (key alphabet %v, sibling keys distinct under folding), arrays of <=2 elements, null, true, 1.5, \"s\"; every key path walking existing keys in three casings plus an absent key per level, depth<=4; each document as map/slice values and as Go structs; rows: arrays of 1..4 objects whose elements spell the same key in different letter case, lack it or hold null / scalars / objects, each element in a Go carrier of its own (map[string]any, struct, named-key map, interface-key map, typed map), read with `$.rows.key` and `$.rows.key.sub`; random: documents of depth<=4 from the generator with key-only paths of depth 1..6 in random casing.; number leaves of every magnitude and Go kind (whole floats beyond 2^63, 2^53+1, denormals, float32, the integer limits, wide decimals) at depth 1..3, across an array, in maps and structs. Non-trivial = the path has >=1 key that exists at its level; distinct by (query, data).", maxNodes, keysC01)
 	memo := map[int][]*D{}
 	seenQ := map[string]bool{}
 	for n := 1; n <= maxNodes; n++ {
